@@ -127,6 +127,7 @@ def findings_reached(ctx, pid, runs, res, origin):
     bad_idx = {m["index"]: m["step"] for m in (res.get("mismatches") or [])}
     listed = {f["id"]: f for f in vf.findings_for(pid)}
     all_listed = {f.get("id") for f in vf.load_known_findings().get("findings", [])}
+    all_what = {f.get("id"): f.get("what", "") for f in vf.load_known_findings().get("findings", [])}
     seen = set()
     with open(runs) as f:
         for idx, line in enumerate(f):
@@ -143,11 +144,14 @@ def findings_reached(ctx, pid, runs, res, origin):
                     continue
                 kf = sorted(exp.get("kf") or [])
                 calls = " ".join(describe(x) for x in beh[:k + 1] if x["a"] != "Idle")
-                if kf and all(i in all_listed for i in kf) and any(i in listed for i in kf):
-                    for i in [x for x in kf if x in listed]:
+                if kf and all(i in all_listed for i in kf):
+                    # every trigger recorded in this behaviour belongs to a recorded finding (whatever property it
+                    # was first filed under: once e.g. a stale leader is installed, invariants of several
+                    # properties fall together)
+                    for i in kf:
                         if i not in seen and not any(k.startswith(i + ":") for k in ctx.known):
                             seen.add(i)
-                            ctx.known_finding("%s: %s [%s false after: %s]" % (i, listed[i]["what"], ",".join(false), calls[:700]))
+                            ctx.known_finding("%s: %s [%s false after: %s]" % (i, all_what[i], ",".join(false), calls[:700]))
                 else:
                     p = ctx.save_replay("%s-inv-%d.json" % (origin, idx), {"behaviour": beh[:k + 1], "false": false, "kf": kf})
                     ctx.violation("the real nodes follow the specification into a state where %s is false (triggers recorded: %s) after: %s"
@@ -370,6 +374,7 @@ def linearizable(ctx, res, origin):
     behs = None
     listed = {f["id"]: f for f in vf.findings_for("C02")}
     all_listed = {f.get("id") for f in vf.load_known_findings().get("findings", [])}
+    all_what = {f.get("id"): f.get("what", "") for f in vf.load_known_findings().get("findings", [])}
     accepted = 0
     for _ in range(12):
         tp = os.path.join(ctx.scratch, "hist-%s.ndjson" % origin)
@@ -394,10 +399,10 @@ def linearizable(ctx, res, origin):
         kf = sorted({k for s in beh if s.get("exp") for k in s["exp"].get("kf", [])})
         hist = [json.loads(x) for x in lines[start:end]]
         calls = " ".join(describe(x) for x in beh if x["a"] != "Idle")
-        if kf and all(i in all_listed for i in kf) and any(i in listed for i in kf):
-            for i in [x for x in kf if x in listed]:
+        if kf and all(i in all_listed for i in kf):
+            for i in kf:
                 if not any(k.startswith(i + ":") for k in ctx.known):
-                    ctx.known_finding("%s: %s [client history not linearizable after: %s]" % (i, listed[i]["what"], calls[:600]))
+                    ctx.known_finding("%s: %s [client history not linearizable after: %s]" % (i, all_what[i], calls[:600]))
         else:
             p = ctx.save_replay("%s-history-%d.json" % (origin, idx), {"behaviour": beh, "history": hist, "rejected_at": bad - start})
             ev = hist[bad - start]
